@@ -231,6 +231,12 @@ struct Stats {
 	bulk_max_hash_buf: u64,
 	bulk_max_data_buf: u64,
 	bulk_file_compares: u64,
+	/// import family (state sync)
+	imports: u64,
+	import_subtrees: u64,
+	import_max_height: u64,
+	import_spent_leaves: u64,
+	import_half: u64,
 }
 impl Stats {
 	fn op(&mut self, k: &str) {
@@ -263,6 +269,8 @@ struct Run<'a, T: Kind> {
 	/// oracle-only history: nothing is printed for the driver (its list-based model is quadratic
 	/// in the batch size); the harness' own oracles are evaluated as always
 	mute: bool,
+	/// `PMMRBackend::new(.., prunable, ..)`: false = the kernel / header MMR flavour
+	prunable: bool,
 }
 
 impl<'a, T: Kind> Run<'a, T> {
@@ -278,7 +286,7 @@ impl<'a, T: Kind> Run<'a, T> {
 	}
 
 	fn open(&mut self) {
-		self.backend = Some(PMMRBackend::new(&self.dir, true, ProtocolVersion(1), None).unwrap());
+		self.backend = Some(PMMRBackend::new(&self.dir, self.prunable, ProtocolVersion(1), None).unwrap());
 	}
 
 	fn fresh(&mut self) {
@@ -304,7 +312,8 @@ impl<'a, T: Kind> Run<'a, T> {
 		self.protected_once.clear();
 		self.readded_protected.clear();
 		self.st.histories += 1;
-		self.emit(&format!("store new {}", T::NAME), "ok");
+		let np = if self.prunable { "" } else { "np" };
+		self.emit(&format!("store new {}{}", np, T::NAME), "ok");
 	}
 
 	fn oracle_fail(&mut self, msg: String) {
@@ -918,6 +927,29 @@ impl<'a, T: Kind> Run<'a, T> {
 					let pl = PruneList::open(self.dir.join("pmmr_prun.bin")).unwrap();
 					format!("{} {}", sizes, pl.len())
 				}));
+				// the leaf-set views used by the bitmap accumulator and the segmenter:
+				// `n_unpruned_leaves_to_index(i)` counts the 1-based leaf-set positions below i,
+				// `leaf_idx_iter(from)` lists the insertion indices of the unspent leaves from `from` on
+				for _ in 0..2 {
+					let i = rng.below(size + 3);
+					let got = pmmr.n_unpruned_leaves_to_index(i);
+					let want = expect_unspent.iter().filter(|p| **p + 1 < i).count() as u64;
+					if got != want {
+						fails.push(format!("n_unpruned_leaves_to_index({}) = {} but {} unspent leaves lie below", i, got, want));
+					}
+					lines.push((format!("store nleaves_to {}", i), got.to_string()));
+					let from = rng.below(n_leaves + 2);
+					let got: Vec<u64> = pmmr.leaf_idx_iter(from).collect();
+					let want: Vec<u64> = expect_unspent
+						.iter()
+						.map(|p| pmmr::n_leaves(*p + 1) - 1)
+						.filter(|k| *k >= from)
+						.collect();
+					if got != want {
+						fails.push(format!("leaf_idx_iter({}) = {:?}, unspent insertion indices from there {:?}", from, got, want));
+					}
+					lines.push((format!("store leafidx {}", from), nat_list(&got)));
+				}
 			}
 		}
 		if emit {
@@ -1762,6 +1794,422 @@ impl<'a, T: Kind> Run<'a, T> {
 		self.backend = None;
 	}
 
+
+	// ---- the import path of state sync (PIBD) ---------------------------------------------
+
+	/// `PMMR::push_pruned_subtree(hash, pos0)` for the subtree of height `h >= 1` whose leaves are
+	/// the next `2^h` leaves of the history (all spent, compacted away on the sending side).  The
+	/// leaf data only goes to the bookkeeping and the reference; the store gets the root hash.
+	fn push_pruned(&mut self, leaves: Vec<T>) {
+		let size = self.bk.size;
+		// the reference gets the leaves
+		let mut rsz = size;
+		for e in leaves.iter() {
+			let mut p = PMMR::at(&mut self.bk.refb, rsz);
+			let _ = p.push(e);
+			rsz = p.size;
+			self.bk.elems.push(e.clone());
+		}
+		// root of the subtree: the last position before the parents that merge it with its left peaks
+		let w = leaves.len() as u64;
+		let pos0 = size + 2 * w - 2;
+		let hash = self.bk.refb.hashes[pos0 as usize];
+		let res = {
+			let be = self.backend.as_mut().unwrap();
+			catch(AssertUnwindSafe(|| {
+				let mut p = PMMR::at(be, size);
+				p.push_pruned_subtree(hash, pos0).map(|_| p.size)
+			}))
+		};
+		let rhs = match res {
+			Ok(Ok(sz)) => {
+				if sz != rsz {
+					self.oracle_fail(format!("push_pruned_subtree({}) at size {} gave size {} but the unpruned reference has {}", pos0, size, sz, rsz));
+				}
+				self.bk.size = sz;
+				sz.to_string()
+			}
+			Ok(Err(e)) => {
+				self.oracle_fail(format!("push_pruned_subtree({}) at size {} refused: {}", pos0, size, e));
+				"err".to_string()
+			}
+			Err(_) => {
+				self.oracle_fail(format!("push_pruned_subtree({}) at size {} panicked", pos0, size));
+				"panic".to_string()
+			}
+		};
+		self.st.op("pushpruned");
+		self.hist.push(format!("pushpruned {} (h={})", pos0, w.trailing_zeros()));
+		let datas = format!("[{}]", leaves.iter().map(|e| hex(&e.ser())).collect::<Vec<_>>().join(","));
+		self.emit(&format!("store pushpruned {} {} {}", pos0, hex(hash.as_bytes()), datas), &rhs);
+		self.check(false);
+	}
+
+	/// `remove_from_leaf_set(pos0)`: a leaf that arrived with its data but is spent
+	fn rm_leaf(&mut self, pos0: u64) {
+		let size = self.bk.size;
+		{
+			let be = self.backend.as_mut().unwrap();
+			PMMR::at(be, size).remove_from_leaf_set(pos0);
+		}
+		self.bk.unspent.remove(&pos0);
+		self.st.op("rmleaf");
+		self.hist.push(format!("rmleaf {}", pos0));
+		self.emit(&format!("store rmleaf {}", pos0), "ok");
+		self.check(false);
+	}
+
+	/// A store filled the way state sync fills it, then used like any other: a leaf history of
+	/// `n` leaves with a spent set; the maximal completely spent aligned subtrees of height >= 1
+	/// arrive as pruned subtrees (or, some of them, only one half, or leaf by leaf: spent but not
+	/// yet compacted on the sending side), everything else as leaves, spent ones removed from the
+	/// leaf set right away; commits in between (one per "segment"); the import boundary is the
+	/// lowest boundary a rewind may target.  Then ordinary units, compactions, rewinds, reopen.
+	fn import_history(&mut self, n: u64, units: u64, max_leaves: u64) {
+		self.fresh();
+		self.st.imports += 1;
+		// spent set: a few aligned subtrees, sibling pairs, singles
+		let mut spent = vec![false; n as usize];
+		for _ in 0..self.rng.range(1, 6) {
+			let h = self.rng.range(1, 4);
+			let w = 1u64 << h;
+			if n >= w {
+				let k = self.rng.below(n / w);
+				for i in k * w..(k + 1) * w {
+					spent[i as usize] = true;
+				}
+			}
+		}
+		for _ in 0..self.rng.range(0, n / 3 + 1) {
+			spent[self.rng.below(n) as usize] = true;
+		}
+		if self.rng.chance(1, 6) {
+			// a long completely spent prefix (old part of the chain)
+			for i in 0..(n * 2 / 3) {
+				spent[i as usize] = true;
+			}
+		}
+		let seg = 1u64 << self.rng.range(2, 5);
+		let mut i = 0u64;
+		while i < n {
+			// largest aligned completely spent subtree starting at leaf i that fits
+			let mut h = 0u32;
+			while i % (1u64 << (h + 1)) == 0
+				&& i + (1u64 << (h + 1)) <= n
+				&& (i..i + (1u64 << (h + 1))).all(|k| spent[k as usize])
+			{
+				h += 1;
+			}
+			// how the sending side holds it: compacted as a whole | only one half | not at all
+			let mode = if h == 0 { 2 } else { self.rng.below(4).min(2) };
+			let w = 1u64 << h;
+			let as_pruned = |r: &mut Self, a: u64, b: u64| {
+				let leaves: Vec<T> = (a..b).map(|_| T::gen(r.rng)).collect();
+				r.st.import_subtrees += 1;
+				r.st.import_max_height = r.st.import_max_height.max((b - a).trailing_zeros() as u64);
+				r.push_pruned(leaves);
+			};
+			let as_leaves = |r: &mut Self, a: u64, b: u64, spent: &Vec<bool>| {
+				for k in a..b {
+					let pos = r.bk.size;
+					r.push();
+					if spent[k as usize] {
+						r.st.import_spent_leaves += 1;
+						r.rm_leaf(pos);
+					}
+				}
+			};
+			if mode == 0 || (mode == 1 && h < 2) {
+				as_pruned(self, i, i + w);
+			} else if mode == 1 {
+				if self.rng.chance(1, 2) {
+					as_pruned(self, i, i + w / 2);
+					as_leaves(self, i + w / 2, i + w, &spent);
+				} else {
+					as_leaves(self, i, i + w / 2, &spent);
+					as_pruned(self, i + w / 2, i + w);
+				}
+				self.st.import_half += 1;
+			} else {
+				as_leaves(self, i, i + w, &spent);
+			}
+			i += w;
+			if i % seg == 0 && i < n && self.rng.chance(1, 2) {
+				self.sync();
+			}
+		}
+		self.sync();
+		// nothing below the import boundary can be rewound to
+		self.bk.min_idx = self.bk.chain.len() - 1;
+		self.observe(true, true);
+		self.observe_prune_file();
+		self.reopen();
+		self.observe(true, true);
+		self.observe_prune_file();
+		// from here on an ordinary history
+		let compact_den = *self.rng.pick(&[2u64, 3, 5]);
+		for u in 0..units {
+			if pmmr::n_leaves(self.bk.size) >= max_leaves {
+				break;
+			}
+			let burst = u == 0 && self.rng.chance(1, 3);
+			self.unit(burst);
+			if self.bk.chain.len() > self.bk.min_idx + 1 && self.rng.chance(1, compact_den) {
+				self.compact();
+				self.observe(true, true);
+				self.observe_prune_file();
+			}
+			if self.rng.chance(1, 6) {
+				self.reopen();
+				self.observe(true, true);
+				self.observe_prune_file();
+			}
+		}
+		self.backend = None;
+	}
+
+	// ---- the non-prunable backend ------------------------------------------------------------
+
+	/// observation of a non-prunable backend: every leaf is there for ever
+	fn np_observe(&mut self, committed: bool) {
+		let size = self.bk.size;
+		let n_leaves = pmmr::n_leaves(size);
+		let ref_root = self.reference_root();
+		let mut fails: Vec<String> = vec![];
+		let mut lines: Vec<(String, String)> = vec![];
+		{
+			let elems = &self.bk.elems;
+			let refh = &self.bk.refb.hashes;
+			let rng = &mut *self.rng;
+			let be = self.backend.as_mut().unwrap();
+			let usize_ = be.unpruned_size();
+			let sizes = format!("{} {} 0", be.hash_size(), be.data_size());
+			let pmmr: PMMR<'_, T, _> = PMMR::at(be, size);
+			let root = pmmr.root();
+			if root != ref_root {
+				fails.push(format!("non-prunable: root {} differs from the reference root {} at size {}", root_str(root.clone()), root_str(ref_root.clone()), size));
+			}
+			lines.push(("store root".into(), root_str(root)));
+			let nl = pmmr.n_unpruned_leaves();
+			if committed {
+				if usize_ != size {
+					fails.push(format!("non-prunable: unpruned_size {} != reference size {}", usize_, size));
+				}
+				if nl != n_leaves {
+					fails.push(format!("non-prunable: n_unpruned_leaves {} != {} leaves", nl, n_leaves));
+				}
+				lines.push(("store usize".into(), usize_.to_string()));
+				lines.push(("store nleaves_sync".into(), nl.to_string()));
+			} else {
+				lines.push(("store usize_mid".into(), usize_.to_string()));
+				lines.push(("store nleaves".into(), nl.to_string()));
+			}
+			let i = rng.below(n_leaves + 3);
+			lines.push((format!("store nleaves_to {}", i), pmmr.n_unpruned_leaves_to_index(i).to_string()));
+			let mut cat: Vec<u8> = vec![];
+			for i in 0..n_leaves {
+				let p = pmmr::insertion_to_pmmr_index(i);
+				if p >= size {
+					continue;
+				}
+				cat.extend_from_slice(&p.to_be_bytes());
+				let d = pmmr.get_data(p);
+				let h = pmmr.get_hash(p);
+				if d.as_ref() != Some(&elems[i as usize]) {
+					fails.push(format!("non-prunable: get_data({}) = {:?}", p, d));
+				}
+				if h != refh.get(p as usize).cloned() || h.is_none() {
+					fails.push(format!("non-prunable: get_hash({}) = {:?}", p, h));
+				}
+				if let Some(d) = d {
+					cat.extend_from_slice(&d.ser());
+				}
+				if let Some(h) = h {
+					cat.extend_from_slice(h.as_bytes());
+				}
+			}
+			lines.push(("store leafobs".into(), hex(blake(&cat).as_bytes())));
+			if n_leaves > 0 {
+				for _ in 0..3 {
+					let p = pmmr::insertion_to_pmmr_index(rng.below(n_leaves));
+					if p >= size {
+						continue;
+					}
+					lines.push((format!("store data {}", p), match pmmr.get_data(p) {
+						Some(d) => hex(&d.ser()),
+						None => "none".into(),
+					}));
+					lines.push((format!("store hash {}", p), opt_hash(pmmr.get_hash(p))));
+					match pmmr.merkle_proof(p) {
+						Ok(pr) => {
+							if let Ok(r) = &ref_root {
+								let i = pmmr::n_leaves(p + 1) - 1;
+								if pr.verify(*r, &elems[i as usize], p).is_err() {
+									fails.push(format!("non-prunable: merkle_proof({}) does not verify against the reference root", p));
+								}
+							}
+							lines.push((
+								format!("store proof {}", p),
+								format!("{} [{}]", pr.mmr_size, pr.path.iter().map(|h| hex(h.as_bytes())).collect::<Vec<_>>().join(",")),
+							));
+						}
+						Err(_) => {
+							fails.push(format!("non-prunable: merkle_proof({}) failed", p));
+							lines.push((format!("store proof {}", p), "err".into()));
+						}
+					}
+				}
+				for _ in 0..2 {
+					let p = rng.below(size + 2);
+					if !pmmr::is_leaf(p) {
+						lines.push((format!("store node {}", p), opt_hash(pmmr.get_hash(p))));
+					}
+				}
+			}
+			lines.push(("store sizes".into(), sizes));
+		}
+		for (l, r) in lines {
+			let tag = self.out.lines;
+			self.emit(&format!("{} @{}", l, tag), &r);
+		}
+		for f in fails {
+			self.oracle_fail(f);
+		}
+	}
+
+	/// histories of a non-prunable backend (`prunable == false`: the kernel MMR - variable-size
+	/// elements - and the header MMR): units of optional rewind to an earlier boundary + appends,
+	/// commit | discard, reopen; a removal is refused by an assertion (`remove`), nothing changes
+	fn np_history(&mut self, units: u64) {
+		self.prunable = false;
+		self.fresh();
+		for u in 0..units {
+			let saved = self.bk.clone();
+			let n = self.bk.chain.len();
+			if n > 1 && self.rng.chance(1, 3) {
+				let j = if self.rng.chance(1, 2) { (n - 1).saturating_sub(self.rng.range(0, 3) as usize) } else { self.rng.below(n as u64) as usize };
+				self.st.rewinds += 1;
+				self.rewind_np(j);
+				if self.rng.chance(1, 2) {
+					self.np_observe(false);
+				}
+			}
+			let n_app = if u == 0 { self.rng.range(3, 20) } else if self.rng.chance(1, 6) { 0 } else { self.rng.range(1, 9) };
+			for _ in 0..n_app {
+				self.push_np();
+			}
+			if self.rng.chance(1, 5) && self.bk.size > 0 {
+				// `PMMR::prune` on a non-prunable backend: `remove` asserts
+				let p = pmmr::insertion_to_pmmr_index(self.rng.below(pmmr::n_leaves(self.bk.size)));
+				if p < self.bk.size {
+					let size = self.bk.size;
+					let res = {
+						let be = self.backend.as_mut().unwrap();
+						catch(AssertUnwindSafe(|| PMMR::at(be, size).prune(p)))
+					};
+					let rhs = match res {
+						Ok(Ok(b)) => b.to_string(),
+						Ok(Err(_)) => "err".to_string(),
+						Err(_) => "panic".to_string(),
+					};
+					self.st.op("prune(np)");
+					self.emit(&format!("store prune {}", p), &rhs);
+				}
+			}
+			if self.rng.chance(1, 3) {
+				self.np_observe(false);
+			}
+			if self.rng.chance(1, 5) {
+				self.be().discard();
+				self.bk = saved;
+				self.emit("store discard", "ok");
+				self.st.op("discard");
+				self.st.discards += 1;
+			} else {
+				let ok = {
+					let be = self.backend.as_mut().unwrap();
+					catch(AssertUnwindSafe(|| be.sync().is_ok()))
+				};
+				self.emit("store sync", match ok {
+					Ok(true) => "ok",
+					Ok(false) => "err",
+					Err(_) => "panic",
+				});
+				self.st.op("sync");
+				self.st.commits += 1;
+				let b = Boundary { size: self.bk.size, unspent: self.bk.unspent.clone() };
+				self.bk.chain.push(b);
+			}
+			self.np_observe(true);
+			if self.rng.chance(1, 5) {
+				self.backend = None;
+				self.open();
+				self.emit("store reopen", "ok");
+				self.st.op("reopen");
+				self.st.reopens += 1;
+				self.np_observe(true);
+			}
+		}
+		self.backend = None;
+		self.prunable = true;
+	}
+
+	fn push_np(&mut self) {
+		let e = T::gen(self.rng);
+		let size = self.bk.size;
+		let res = {
+			let be = self.backend.as_mut().unwrap();
+			catch(AssertUnwindSafe(|| {
+				let mut p = PMMR::at(be, size);
+				p.push(&e).map(|_| p.size)
+			}))
+		};
+		let rhs = match res {
+			Ok(Ok(sz)) => {
+				self.bk.unspent.insert(size);
+				self.bk.elems.push(e.clone());
+				self.bk.size = sz;
+				let rsz = {
+					let mut p = PMMR::at(&mut self.bk.refb, size);
+					p.push(&e).map(|_| p.size)
+				};
+				if rsz != Ok(sz) {
+					self.oracle_fail(format!("non-prunable: push at size {} gave size {} but the reference {:?}", size, sz, rsz));
+				}
+				sz.to_string()
+			}
+			Ok(Err(_)) => "err".to_string(),
+			Err(_) => "panic".to_string(),
+		};
+		self.st.op("push");
+		self.emit(&format!("store push {}", hex(&e.ser())), &rhs);
+	}
+
+	fn rewind_np(&mut self, j: usize) {
+		let target = self.bk.chain[j].clone();
+		let bitmap = Bitmap::new();
+		let size = self.bk.size;
+		let res = {
+			let be = self.backend.as_mut().unwrap();
+			catch(AssertUnwindSafe(|| {
+				let mut p = PMMR::at(be, size);
+				p.rewind(target.size, &bitmap).map(|_| p.size)
+			}))
+		};
+		let rhs = match res {
+			Ok(Ok(sz)) => sz.to_string(),
+			Ok(Err(_)) => "err".to_string(),
+			Err(_) => "panic".to_string(),
+		};
+		self.emit(&format!("store rewind {} []", target.size), &rhs);
+		self.st.op("rewind");
+		let _ = self.bk.refb.rewind(target.size, &bitmap);
+		self.bk.size = target.size;
+		self.bk.unspent = target.unspent.clone();
+		self.bk.elems.truncate(pmmr::n_leaves(target.size) as usize);
+		self.bk.chain.truncate(j + 1);
+	}
+
 	fn history(&mut self, units: u64, max_leaves: u64) {
 		self.fresh();
 		// some histories compact often (short rewinds), some rarely (deep rewinds possible)
@@ -1953,6 +2401,7 @@ fn new_run<'a, T: Kind>(out: &'a mut Out, rng: &'a mut Rng, st: &'a mut Stats, d
 		protected_once: BTreeSet::new(),
 		readded_protected: BTreeSet::new(),
 		mute: false,
+		prunable: true,
 	}
 }
 
@@ -2033,6 +2482,209 @@ fn run_bulk<T: Kind>(out: &mut Out, rng: &mut Rng, thorough: bool) {
 		T::NAME, st.bulk_batches, st.bulk_discarded, if thorough { "1 MiB and 4 MiB" } else { "1 MiB" }, st.bulk_max_hash_buf, st.bulk_max_data_buf, st.bulk_file_compares
 	));
 	print_deep_stats(out, &format!("bulk-{}", T::NAME), &st);
+}
+
+
+/// `store imported`: stores filled through the import path of state sync, then ordinary histories
+fn run_import<T: Kind>(out: &mut Out, rng: &mut Rng, histories: u64, units: u64) {
+	let work = std::env::var("VERIF_WORK").expect("VERIF_WORK not set");
+	let dir = PathBuf::from(work).join(format!("import_{}", T::NAME));
+	let mut st = Stats::default();
+	{
+		let mut run: Run<'_, T> = new_run(out, rng, &mut st, dir);
+		for k in 0..histories {
+			// small leaf counts first (every shape of a few leaves), then larger ones
+			let n = if k < 12 { 2 + k } else { run.rng.range(8, 70) };
+			run.import_history(n, units, 140);
+		}
+	}
+	print_stats(out, &format!("import-{}", T::NAME), &st);
+	out.raw(&format!(
+		"#STAT [import-{}] import family: histories={} pruned subtrees pushed={} (max height {}) of which halves of a spent subtree={} leaves pushed and removed from the leaf set at once={}; each followed by commit, reopen and an ordinary history with the import boundary as the lowest rewind target",
+		T::NAME, st.imports, st.import_subtrees, st.import_max_height, st.import_half, st.import_spent_leaves
+	));
+	print_deep_stats(out, &format!("import-{}", T::NAME), &st);
+}
+
+/// `store nonprunable`: histories of a backend opened with `prunable == false`
+fn run_np<T: Kind>(out: &mut Out, rng: &mut Rng, histories: u64, units: u64) {
+	let work = std::env::var("VERIF_WORK").expect("VERIF_WORK not set");
+	let dir = PathBuf::from(work).join(format!("np_{}", T::NAME));
+	let mut st = Stats::default();
+	{
+		let mut run: Run<'_, T> = new_run(out, rng, &mut st, dir);
+		for _ in 0..histories {
+			run.np_history(units);
+		}
+	}
+	print_stats(out, &format!("np-{}", T::NAME), &st);
+}
+
+/// Malformed import stream (model tie only): `push_pruned_subtree` at leaf height, for two sibling
+/// subtrees in a row (the second is refused: its left sibling disappeared under the rolled-up
+/// parent), mixed with pushes, `remove_from_leaf_set`, `reset_prune_list`, commits, discards,
+/// reopen; the handle keeps whatever size the code left in `PMMR::size`.
+fn import_rough<T: Kind>(out: &mut Out, rng: &mut Rng, histories: u64, steps: u64) {
+	let work = std::env::var("VERIF_WORK").expect("VERIF_WORK not set");
+	let dir = PathBuf::from(work).join(format!("import_rough_{}", T::NAME));
+	let mut ops: BTreeMap<&'static str, u64> = BTreeMap::new();
+	for _ in 0..histories {
+		let _ = std::fs::remove_dir_all(&dir);
+		std::fs::create_dir_all(&dir).unwrap();
+		let mut be: PMMRBackend<T> = PMMRBackend::new(&dir, true, ProtocolVersion(1), None).unwrap();
+		out.line(&format!("store new {}", T::NAME), "ok");
+		let mut size = 0u64;
+		let mut synced = true;
+		let mut broken = false;
+		// highest position handed to the prune list (in memory / as of the last sync): a second
+		// append at or below it trips the "prune list append only" assertion, which the model
+		// treats as a precondition
+		let mut last_pruned: Option<u64> = None;
+		let mut last_pruned_synced: Option<u64> = None;
+		for _ in 0..steps {
+			let r = rng.below(100);
+			if r < 35 {
+				let e = T::gen(rng);
+				let res = catch(AssertUnwindSafe(|| {
+					let mut p = PMMR::at(&mut be, size);
+					p.push(&e).map(|_| p.size)
+				}));
+				let rhs = match res {
+					Ok(Ok(sz)) => {
+						size = sz;
+						sz.to_string()
+					}
+					Ok(Err(_)) => "err".to_string(),
+					Err(_) => "panic".to_string(),
+				};
+				out.line(&format!("store xpush {}", hex(&e.ser())), &rhs);
+				synced = false;
+				*ops.entry("xpush").or_insert(0) += 1;
+			} else if r < 60 {
+				// a pruned subtree of height h whose leaves would be the next 2^h leaves; `size` must be
+				// a leaf boundary for the position to mean anything
+				if size != pmmr::round_up_to_leaf_pos(size) || broken {
+					continue;
+				}
+				let nl = pmmr::n_leaves(size);
+				let maxh = if nl == 0 { 3 } else { (nl.trailing_zeros() as u64).min(3) };
+				let h = rng.range(0, maxh);
+				let pos0 = size + (2u64 << h) - 2;
+				if last_pruned.map_or(false, |l| pos0 <= l) {
+					*ops.entry("xpushpruned-skipped(same position twice)").or_insert(0) += 1;
+					continue;
+				}
+				last_pruned = Some(pos0);
+				let hash = blake(&rng.bytes(8));
+				let mut after = size;
+				let res = catch(AssertUnwindSafe(|| {
+					let mut p = PMMR::at(&mut be, size);
+					let r = p.push_pruned_subtree(hash, pos0);
+					after = p.size;
+					r
+				}));
+				let rhs = match res {
+					Ok(Ok(())) => {
+						size = after;
+						after.to_string()
+					}
+					Ok(Err(_)) => {
+						size = after;
+						*ops.entry("xpushpruned-refused").or_insert(0) += 1;
+						// the handle is at `pos0 + 1`, not a leaf boundary: only discard makes sense now
+						broken = true;
+						"err".to_string()
+					}
+					Err(_) => "panic".to_string(),
+				};
+				out.line(&format!("store xpushpruned {} {}", pos0, hex(hash.as_bytes())), &rhs);
+				synced = false;
+				*ops.entry(if h == 0 { "xpushpruned(leaf)" } else { "xpushpruned" }).or_insert(0) += 1;
+			} else if r < 68 {
+				if size == 0 {
+					continue;
+				}
+				let p = pmmr::insertion_to_pmmr_index(rng.below(pmmr::n_leaves(size)));
+				PMMR::at(&mut be, size).remove_from_leaf_set(p);
+				out.line(&format!("store rmleaf {}", p), "ok");
+				synced = false;
+				*ops.entry("rmleaf").or_insert(0) += 1;
+			} else if r < 78 {
+				if broken {
+					continue;
+				}
+				let ok = catch(AssertUnwindSafe(|| be.sync().is_ok()));
+				out.line("store sync", match ok {
+					Ok(true) => "ok",
+					Ok(false) => "err",
+					Err(_) => "panic",
+				});
+				synced = true;
+				last_pruned_synced = last_pruned;
+				*ops.entry("sync").or_insert(0) += 1;
+			} else if r < 86 {
+				be.discard();
+				out.line("store discard", "ok");
+				// the prune list is not part of what `discard` restores: reopen as the node does
+				drop(be);
+				be = PMMRBackend::new(&dir, true, ProtocolVersion(1), None).unwrap();
+				out.line("store reopen", "ok");
+				size = be.unpruned_size();
+				out.line(&format!("store xsetsize {}", size), "ok");
+				synced = true;
+				broken = false;
+				last_pruned = last_pruned_synced;
+				*ops.entry("discard+reopen").or_insert(0) += 1;
+			} else if r < 88 {
+				if !synced {
+					continue;
+				}
+				PMMR::at(&mut be, size).reset_prune_list();
+				last_pruned = None;
+				last_pruned_synced = None;
+				out.line("store resetpl", "ok");
+				*ops.entry("resetpl").or_insert(0) += 1;
+			} else {
+				let tag = out.lines;
+				out.line(&format!("store xsizes @{}", tag), &format!("{} {}", be.hash_size(), be.data_size()));
+				out.line(&format!("store usize_mid @{}", tag), &be.unpruned_size().to_string());
+				if broken {
+					continue;
+				}
+				let pmmr: PMMR<'_, T, _> = PMMR::at(&mut be, size);
+				out.line(&format!("store xroot @{}", tag), &root_str(pmmr.root()));
+				let leaves: Vec<u64> = pmmr.leaf_pos_iter().collect();
+				out.line(&format!("store xleaves @{}", tag), &nat_list(&leaves));
+				let mut cat: Vec<u8> = vec![];
+				for i in 0..pmmr::n_leaves(size) {
+					let p = pmmr::insertion_to_pmmr_index(i);
+					if p >= size {
+						continue;
+					}
+					cat.extend_from_slice(&p.to_be_bytes());
+					if let Some(d) = pmmr.get_data(p) {
+						cat.extend_from_slice(&d.ser());
+					}
+					if let Some(h) = pmmr.get_hash(p) {
+						cat.extend_from_slice(h.as_bytes());
+					}
+				}
+				out.line(&format!("store xleafobs @{}", tag), &hex(blake(&cat).as_bytes()));
+				let mut nones: Vec<u64> = vec![];
+				let mut cat: Vec<u8> = vec![];
+				for p in 0..size {
+					match pmmr.get_from_file(p) {
+						Some(h) => cat.extend_from_slice(h.as_bytes()),
+						None => nones.push(p),
+					}
+				}
+				out.line(&format!("store xfile @{}", tag), &format!("{} {}", nat_list(&nones), hex(blake(&cat).as_bytes())));
+				*ops.entry("observe").or_insert(0) += 1;
+			}
+		}
+	}
+	let v: Vec<String> = ops.iter().map(|(k, v)| format!("{}={}", k, v)).collect();
+	out.raw(&format!("#STAT [import-rough-{}] malformed import ops: {}", T::NAME, v.join(" ")));
 }
 
 /// Out-of-protocol stream (model tie only, no reference oracle): rewinds to any earlier committed
@@ -2262,6 +2914,19 @@ fn main() {
 		run_bulk::<Elem>(&mut out, &mut rng, thorough);
 		run_bulk::<RpElem>(&mut out, &mut rng, thorough);
 		run_bulk::<VarElem>(&mut out, &mut rng, thorough);
+	}
+	if mode == "imported" || mode == "all" {
+		let (h, u) = if thorough { (60, 40) } else { (26, 14) };
+		run_import::<Elem>(&mut out, &mut rng, h, u);
+		run_import::<VarElem>(&mut out, &mut rng, h * 2 / 3, u);
+		let (h, n) = if thorough { (20, 300) } else { (8, 160) };
+		import_rough::<Elem>(&mut out, &mut rng, h, n);
+		import_rough::<VarElem>(&mut out, &mut rng, h, n);
+	}
+	if mode == "nonprunable" || mode == "all" {
+		let (h, u) = if thorough { (24, 60) } else { (8, 30) };
+		run_np::<VarElem>(&mut out, &mut rng, h, u);
+		run_np::<Elem>(&mut out, &mut rng, h, u);
 	}
 	if mode == "rough" || mode == "all" {
 		let (h, n) = if thorough { (20, 600) } else { (6, 400) };
